@@ -205,6 +205,9 @@ pub enum Submit {
 	NrdRecentDuplicate,
 	/// the same, exactly relative_height blocks below the next block
 	NrdJustOldEnough,
+	/// aggregate of two fresh transactions with height-locked kernels: one lock reached by the next
+	/// block, the other two blocks further on - the aggregate is locked until the later one
+	AggregatedMixedLocks,
 }
 
 #[derive(Serialize, Deserialize, Clone, Debug, PartialEq)]
@@ -248,6 +251,14 @@ pub struct PoolSim<'w, P: PoolAdapter + 'static> {
 	pub probes: BTreeMap<String, u64>,
 	/// transactions submitted and accepted so far (for duplicates / aggregates)
 	accepted: Vec<Transaction>,
+	/// kernels of submissions the pool refused (and that were not in the pool at that moment, nor
+	/// accepted since): a refused transaction leaves no trace, so none of them may ever show up in
+	/// the txpool or stempool (C06: "processes further input exactly as a node that never saw it")
+	refused_kernels: BTreeSet<Hash>,
+	/// kernels of every submission the pool ever accepted: such a transaction may legitimately come
+	/// back through the reorg cache after a later resubmission of it was refused (e.g. while it sat
+	/// in a block that the reorg then undid)
+	ever_accepted_kernels: BTreeSet<Hash>,
 }
 
 fn viol(key: &str, what: String) -> Violation {
@@ -309,6 +320,8 @@ impl<'w> PoolSim<'w, SimRelay> {
 			step: 0,
 			probes: BTreeMap::new(),
 			accepted: vec![],
+			refused_kernels: BTreeSet::new(),
+			ever_accepted_kernels: BTreeSet::new(),
 		})
 	}
 }
@@ -370,6 +383,8 @@ impl<'w> PoolSim<'w, PoolToNetAdapter> {
 			step: 0,
 			probes: BTreeMap::new(),
 			accepted: vec![],
+			refused_kernels: BTreeSet::new(),
+			ever_accepted_kernels: BTreeSet::new(),
 		};
 		ps.probe(if with_relay { "net_mode_with_relay_peer" } else { "net_mode_without_relay_peer" });
 		Ok(ps)
@@ -853,7 +868,17 @@ impl<'w, P: PoolAdapter + 'static> PoolSim<'w, P> {
 					let h = self.world.blocks[p].height + 1;
 					let mut txs = vec![];
 					if rng.chance(1, 2) {
-						let pool = World::spendable(&self.world.blocks[p].ledger, h);
+						let mut pool = World::spendable(&self.world.blocks[p].ledger, h);
+						// every other reorg aims at the outputs pooled transactions spend: the pooled spender
+						// falls out, whatever else was refused for clashing with it must stay out
+						if *r % 2 == 0 {
+							let claimed = self.pool_inputs();
+							let aimed: Vec<OutInfo> = pool.iter().filter(|o| claimed.contains(&ckey(&o.commit))).cloned().collect();
+							if !aimed.is_empty() {
+								pool = aimed;
+								self.probe("fork_block_spends_pooled_input");
+							}
+						}
 						if !pool.is_empty() {
 							let x = rng.pick(&pool).clone();
 							if let Some(t) = self.make_spend(&[x], 2, Self::plain_fee(1, 2), None, &mut rng) {
@@ -1131,6 +1156,22 @@ impl<'w, P: PoolAdapter + 'static> PoolSim<'w, P> {
 					None
 				}
 			}
+			Submit::AggregatedMixedLocks => {
+				if free.len() >= 2 {
+					let fee = Self::plain_fee(1, 1);
+					let mk = |lh: u64| KernelFeatures::HeightLocked { fee: FeeFields::new(0, fee).unwrap(), lock_height: lh };
+					let a = self.make_spend(&[free[0].clone()], 1, fee, Some(mk(next_h)), &mut rng);
+					let b = self.make_spend(&[free[1].clone()], 1, fee, Some(mk(next_h + 2)), &mut rng);
+					expect = Some(false);
+					self.probe("aggregate_with_mixed_lock_heights_submitted");
+					match (a, b) {
+						(Some(a), Some(b)) => transaction::aggregate(&[a, b]).ok(),
+						_ => None,
+					}
+				} else {
+					None
+				}
+			}
 			Submit::BadSignature | Submit::Outputless | Submit::OutputlessBadSignature => {
 				if let Some(x) = free.first().cloned() {
 					let t = if *kind == Submit::BadSignature {
@@ -1262,6 +1303,21 @@ impl<'w, P: PoolAdapter + 'static> PoolSim<'w, P> {
 		}
 		self.drain_net();
 		if res.is_ok() {
+			for k in tx.kernels() {
+				self.refused_kernels.remove(&k.hash());
+				self.ever_accepted_kernels.insert(k.hash());
+			}
+		} else if (self.link.is_none() && expect != Some(true)) || expect == Some(false) {
+			// (over the wire a refusal is only inferred from the pool's contents: counted only where the
+			// model says the submission has to be refused)
+			let pooled = self.pooled_kernels(true);
+			for k in tx.kernels() {
+				if !pooled.contains(&k.hash()) && !self.ever_accepted_kernels.contains(&k.hash()) {
+					self.refused_kernels.insert(k.hash());
+				}
+			}
+		}
+		if res.is_ok() {
 			self.accepted.push(tx);
 			self.probe(if stem { "stem_accepted" } else { "fluff_accepted" });
 			if over_capacity && !stem {
@@ -1293,6 +1349,12 @@ impl<'w, P: PoolAdapter + 'static> PoolSim<'w, P> {
 		}
 		let txs = self.pool.read().txpool.all_transactions();
 		let stem = self.pool.read().stempool.all_transactions();
+		// nothing the pool refused has found its way in
+		for t in txs.iter().chain(stem.iter()) {
+			if let Some(k) = t.kernels().iter().find(|k| self.refused_kernels.contains(&k.hash())) {
+				return Err(viol("refused-transaction-in-pool", format!("step {} ({}): the pool holds kernel {} of a transaction it refused when it was submitted (and that was never accepted since)", step, ctx, k.hash())));
+			}
+		}
 		// no two entries share an input
 		let mut seen: BTreeSet<CommitKey> = BTreeSet::new();
 		for t in &txs {
@@ -1450,6 +1512,8 @@ pub fn gen_ops(rng: &mut SimRng, thorough: bool) -> Vec<Op> {
 	tail.push(Op::HeaderAhead { r: rng.next_u64() });
 	tail.push(Op::Submit { kind: Submit::LockFuture, stem: false, r: r_mod(rng, 3, 0) });
 	tail.push(Op::Submit { kind: Submit::LockNext, stem: false, r: rng.next_u64() });
+	tail.push(Op::Submit { kind: Submit::AggregatedMixedLocks, stem: false, r: rng.next_u64() });
+	tail.push(Op::Submit { kind: Submit::AggregatedMixedLocks, stem: false, r: rng.next_u64() });
 	tail.push(Op::Reorg { depth: rng.range(2, 3), r: rng.next_u64() });
 	tail.push(Op::Submit { kind: Submit::JustMatureCoinbase, stem: false, r: rng.next_u64() });
 	tail.push(Op::Submit { kind: Submit::ImmatureCoinbase, stem: false, r: rng.next_u64() });
@@ -1684,6 +1748,16 @@ pub fn case_c06(tier: &str, seed: u64, case: u64) -> CaseResult {
 		let mut rr = rng.fork(&format!("pool06-{}", run));
 		let mut ops = gen_ops(&mut rr, thorough);
 		// more forks arriving while the pool is not empty: deep enough that the first fork blocks lose
+		// a two-input transaction in the pool, double spends of single inputs of it refused, then a reorg
+		// whose blocks spend what the pool spends
+		for _ in 0..2 {
+			let at = rr.usize_below(ops.len() + 1);
+			ops.insert(at, Op::Reorg { depth: rr.range(1, 2), r: (rr.next_u64() >> 1) << 1 });
+			ops.insert(at, Op::Submit { kind: Submit::Conflict, stem: false, r: rr.next_u64() });
+			ops.insert(at, Op::Submit { kind: Submit::Conflict, stem: false, r: rr.next_u64() });
+			ops.insert(at, Op::Submit { kind: Submit::Valid, stem: false, r: rr.next_u64() });
+			ops.insert(at, Op::Submit { kind: Submit::Valid, stem: false, r: rr.next_u64() });
+		}
 		for _ in 0..3 {
 			let at = rr.usize_below(ops.len() + 1);
 			ops.insert(at, Op::Reorg { depth: rr.range(2, 3), r: rr.next_u64() });
@@ -1697,7 +1771,7 @@ pub fn case_c06(tier: &str, seed: u64, case: u64) -> CaseResult {
 		res.run_digests.push((digest, true));
 		res.extra.insert("poolsim_runs".into(), json!(res.runs));
 		if let Some(v) = v {
-			let relevant = v.key == "C14:losing-fork-block-changed-pool" || v.key == "C14:submission-changed-chain-state";
+			let relevant = v.key == "C14:losing-fork-block-changed-pool" || v.key == "C14:submission-changed-chain-state" || v.key == "C14:refused-transaction-in-pool";
 			if relevant {
 				res.violations.push(Violation {
 					key: v.key.replace("C14:", "C06:pool-"),
